@@ -147,6 +147,29 @@ func c11Case(c *mc.Ctx, cfg ref.Cfg, it ref.Item, v ref.V, vs string, undoc stri
 			return
 		}
 		data := append([]byte(nil), out[3:]...)
+		// other destination shapes: empty non-nil buffers too small for the value
+		for _, dst := range [][]byte{make([]byte, 0), make([]byte, 0, 1), nil} {
+			o2, err := p.Marshal(dst, rv.Addr().Interface())
+			if err != nil {
+				continue
+			}
+			if w := overlaps(vr, o2); w != "" {
+				c.Violation(pre+"marshal-output-shares-memory-with-value:small-destination", fmt.Sprintf("destination len 0 cap %d: output shares %s", cap(dst), w))
+				return
+			}
+			if !bytes.Equal(o2, data) && !t.Contains(func(x *ref.T) bool { return x.K == ref.KMap }) {
+				c.Violation(pre+"marshal-output-depends-on-destination", fmt.Sprintf("%s vs %s", hx(o2), hx(data)))
+				return
+			}
+			// writing into the output must not change the value
+			for i := range o2 {
+				o2[i] ^= 0xff
+			}
+			if after := ref.Str(t, ref.FromReflect(t, rv)); after != before {
+				c.Violation(pre+"value-changed-through-marshal-output", fmt.Sprintf("value was %s, now %s", before, after))
+				return
+			}
+		}
 		// ---- Unmarshal side: decode from a buffer with spare capacity
 		in := make([]byte, len(data), len(data)+64)
 		copy(in, data)
